@@ -301,7 +301,7 @@ Lemma inv_bq V c stop fuel v' : Inv V ->
   cls v' = CHold -> length (v_next V) < fuel ->
   exists nx q', bq_walk fuel (v_next V) (v_dn V) (v_req V) stop (v_q V) = (nx, v_dn V, q') /\
     Inv (mkV PDoor q' nx (v_dn V) (v_err V) (v_own V) [] (rev (v_gs V) ++ v_gq V) (v_al V) (v_gl V) (upd (v_tv V) c v')) /\
-    (v_gs V <> [] -> exists w, q' = PNode w).
+    (v_gs V <> [] -> exists w, q' = PNode w) /\ length nx = length (v_next V).
 Proof.
   intros I C H F.
   assert (Hc : is_hold (cls (v_tv V c)) = true) by (destruct C as [[-> _]|[-> _]]; reflexivity).
@@ -344,7 +344,7 @@ Proof.
         eapply only_owner; [exact I|exact O|rewrite Q; reflexivity].
       * apply (i_dn V I).
       * rewrite (i_fifo V I), GQ. cbn [app rev]. rewrite app_nil_r. reflexivity.
-    + intros NE. destruct (rev (v_gs V)) as [|x r] eqn:Z.
+    + split; [|exact L1]. intros NE. destruct (rev (v_gs V)) as [|x r] eqn:Z.
       * exfalso. apply NE. apply (f_equal (@rev nat)) in Z. rewrite rev_involutive in Z. exact Z.
       * eauto.
 Qed.
@@ -454,4 +454,337 @@ Proof.
     intros Z. exfalso. apply N0. eapply only_owner; [exact I|exact O|rewrite Z; reflexivity].
   - apply (i_dn V I).
   - rewrite (i_fifo V I), GQ. cbn [app]. rewrite <- !app_assoc. reflexivity.
+Qed.
+
+(* ================================================================ part 2: the model state *)
+Definition tvw (x : task) : tview := (tk x, tpc x, flag x).
+Definition tvs (s : st) : nat -> tview := fun c => tvw (gtask s c).
+Definition vw (s : st) : view :=
+  mkV (requests s) (queue s) (next s) (dnext s) (err s) (owner s) (gstack s) (gqueue s) (alog s) (glog s) (tvs s).
+
+Definition SInv (s : st) : Prop := length (next s) = length (tasks s) /\ Inv (vw s).
+
+Definition veq (V V' : view) : Prop :=
+  v_req V = v_req V' /\ v_q V = v_q V' /\ v_next V = v_next V' /\ v_dn V = v_dn V' /\ v_err V = v_err V' /\
+  v_own V = v_own V' /\ v_gs V = v_gs V' /\ v_gq V = v_gq V' /\ v_al V = v_al V' /\ v_gl V = v_gl V' /\
+  forall x, v_tv V x = v_tv V' x.
+
+Lemma inv_veq V V' : veq V V' -> Inv V -> Inv V'.
+Proof.
+  intros (E1 & E2 & E3 & E4 & E5 & E6 & E7 & E8 & E9 & E10 & E11) I.
+  pose proof (inv_cls V (v_tv V') I) as Q.
+  destruct V, V'. cbn [v_req v_q v_next v_dn v_err v_own v_gs v_gq v_al v_gl v_tv] in *. subst.
+  apply Q.
+  - intros x. rewrite E11. reflexivity.
+  - intros c L. rewrite <- E11. apply (i_dom _ I). exact L.
+Qed.
+
+Lemma veq_refl V : veq V V.
+Proof. unfold veq. repeat split; reflexivity. Qed.
+
+Lemma nth_set_nth_gen {A} (l : list A) i j x d :
+  nth j (set_nth l i x) d = if Nat.eqb j i && Nat.ltb i (length l) then x else nth j l d.
+Proof.
+  revert i j; induction l as [|y l IH]; intros i j.
+  - assert (Q : Nat.ltb i (length (@nil A)) = false) by (apply Nat.ltb_ge; cbn; lia).
+    rewrite Q, andb_false_r. destruct i; reflexivity.
+  - destruct i as [|i], j as [|j]; cbn [set_nth nth]; try reflexivity.
+    rewrite IH. cbn [Nat.eqb].
+    assert (Q : Nat.ltb (S i) (length (y :: l)) = Nat.ltb i (length l)).
+    { cbn [length]. destruct (Nat.ltb_spec i (length l)), (Nat.ltb_spec (S i) (S (length l))); auto; lia. }
+    rewrite Q. reflexivity.
+Qed.
+
+Lemma gtask_set_task s c y x : c < length (tasks s) ->
+  gtask (set_task s c y) x = if Nat.eqb x c then y else gtask s x.
+Proof.
+  intros L. unfold gtask, set_task, s_tasks. cbn [tasks]. rewrite nth_set_nth_gen.
+  assert (Q : Nat.ltb c (length (tasks s)) = true) by (apply Nat.ltb_lt; exact L).
+  rewrite Q, andb_true_r. reflexivity.
+Qed.
+
+Lemma tvs_set_task s c y : c < length (tasks s) -> forall x, tvs (set_task s c y) x = upd (tvs s) c (tvw y) x.
+Proof. intros L x. unfold tvs, upd. rewrite gtask_set_task by exact L. destruct (Nat.eqb x c); reflexivity. Qed.
+
+(* set_task with a task of the same kind/pc/flag does not change the view (any index) *)
+Lemma tvs_set_task_same s c y : tvw y = tvw (gtask s c) -> forall x, tvs (set_task s c y) x = tvs s x.
+Proof.
+  intros E x. unfold tvs, gtask, set_task, s_tasks. cbn [tasks]. rewrite nth_set_nth_gen.
+  destruct (Nat.eqb x c) eqn:Q; cbn [andb]; [|reflexivity].
+  apply Nat.eqb_eq in Q. subst x. destruct (Nat.ltb c (length (tasks s))); [|reflexivity]. exact E.
+Qed.
+
+(* ---------- bookkeeping that leaves the view alone ---------- *)
+Definition same (s s' : st) : Prop :=
+  veq (vw s) (vw s') /\ length (next s') = length (next s) /\ length (tasks s') = length (tasks s).
+
+Lemma same_refl s : same s s.
+Proof. split; [apply veq_refl|auto]. Qed.
+
+Lemma same_trans a b c : same a b -> same b c -> same a c.
+Proof.
+  intros (V1 & N1 & T1) (V2 & N2 & T2). split; [|split; congruence].
+  unfold veq in *. repeat match goal with H : _ /\ _ |- _ => destruct H end.
+  repeat split; try congruence.
+Qed.
+
+Lemma sinv_same s s' : same s s' -> SInv s -> SInv s'.
+Proof. intros (V & N & T) [L I]. split; [congruence|]. eapply inv_veq; eassumption. Qed.
+
+Lemma same_set_run s t r : same s (set_run s t r).
+Proof. split; [apply veq_refl|auto]. Qed.
+Lemma same_set_tq s t q : same s (set_tq s t q).
+Proof. split; [apply veq_refl|auto]. Qed.
+
+Lemma same_enter s w : same s (enter s w).
+Proof.
+  unfold enter. split; [|split].
+  - unfold veq, vw. cbn [v_req v_q v_next v_dn v_err v_own v_gs v_gq v_al v_gl v_tv].
+    repeat split; try reflexivity. intros x. symmetry.
+    rewrite tvs_set_task_same; reflexivity.
+  - reflexivity.
+  - unfold set_task, s_tasks, s_scn. cbn [tasks]. apply set_nth_len.
+Qed.
+
+Lemma same_yield s t : same s (yield s t).
+Proof.
+  unfold yield. destruct (tq (gthr s t)) as [|w r].
+  - destruct (tk (gtask s t)); [apply same_set_run|]. destruct (tpc (gtask s t)); apply same_set_run.
+  - match goal with |- same s (match ?p with _ => _ end) => destruct p end;
+      try (eapply same_trans; [apply same_set_tq|apply same_set_run]).
+    eapply same_trans; [eapply same_trans; [apply same_set_tq|apply same_set_run]|apply same_enter].
+Qed.
+
+(* ---------- a task changes pc inside its class ---------- *)
+Lemma sinv_set_task_cls s c y : SInv s -> c < length (tasks s) -> cls (tvw y) = cls (tvs s c) -> SInv (set_task s c y).
+Proof.
+  intros [L I] Lc E. split.
+  - unfold set_task, s_tasks. cbn [next tasks]. rewrite set_nth_len. exact L.
+  - eapply inv_veq; [|apply (inv_cls (vw s) (upd (tvs s) c (tvw y)) I)].
+    + unfold veq, vw. cbn [v_req v_q v_next v_dn v_err v_own v_gs v_gq v_al v_gl v_tv].
+      repeat split; try reflexivity. intros x. symmetry. apply tvs_set_task. exact Lc.
+    + intros x. cbn [vw v_tv]. unfold upd. destruct (Nat.eqb_spec x c); [subst; exact E|reflexivity].
+    + intros x Lx. cbn [vw v_next] in Lx. rewrite upd_other by lia. apply (i_dom _ I). exact Lx.
+Qed.
+
+(* a task that is not PDone is a declared task *)
+Lemma task_lt s c : tpc (gtask s c) <> PDone -> c < length (tasks s).
+Proof.
+  intros H. destruct (le_lt_dec (length (tasks s)) c) as [L|L]; [|exact L]. exfalso. apply H.
+  unfold gtask. rewrite nth_overflow by exact L. reflexivity.
+Qed.
+
+Lemma upd_upd_same f c a b x : upd (upd f c a) c b x = upd f c b x.
+Proof. unfold upd. destruct (Nat.eqb x c); reflexivity. Qed.
+
+Lemma upd_id f c x : upd f c (f c) x = f x.
+Proof. unfold upd. destruct (Nat.eqb_spec x c); [subst|]; reflexivity. Qed.
+
+Lemma gtask_set_task_other s c y w : w <> c -> gtask (set_task s c y) w = gtask s w.
+Proof.
+  intros N. unfold gtask, set_task, s_tasks. cbn [tasks]. rewrite nth_set_nth_gen.
+  apply Nat.eqb_neq in N. rewrite N. reflexivity.
+Qed.
+
+Lemma set_task_len s c y : length (tasks (set_task s c y)) = length (tasks s).
+Proof. unfold set_task, s_tasks. cbn [tasks]. apply set_nth_len. Qed.
+
+Ltac veq_fields := unfold veq, vw; cbn [v_req v_q v_next v_dn v_err v_own v_gs v_gq v_al v_gl v_tv];
+  repeat match goal with |- _ /\ _ => split end; try reflexivity.
+
+(* ---------- the hand-over (mutex.h:170-176) with every release flavour ---------- *)
+Lemma handover_inv s t c vh : length (next s) = length (tasks s) -> c < length (tasks s) ->
+  Inv (mkV (requests s) (queue s) (next s) (dnext s) (err s) (owner s) (gstack s) (gqueue s) (alog s) (glog s)
+           (upd (tvs s) c vh)) ->
+  cls vh = CHold -> queue s <> PNull -> SInv (handover s t c).
+Proof.
+  intros L Lc I Hh Q.
+  destruct (queue s) as [| |w] eqn:EQ; [contradiction| |].
+  - exfalso. pose proof (i_queue _ I) as R. cbn [v_next v_q v_gq] in R.
+    destruct (repr_nil_inv _ _ _ _ R); [discriminate|discriminate].
+  - set (yc := t_endround (gtask s c) false).
+    assert (Hn : cls (tvw yc) = CNeutral) by reflexivity.
+    assert (Kw : exists vw', cls vw' = CHold /\
+              vw' = match tk (gtask s w) with KPlain => tvw (t_flag (gtask s w) true) | KCoro => tvw (t_pc (gtask s w) PCs) end /\
+              w <> c /\ w < length (tasks s)).
+    { destruct (inv_handover _ c w (tvw yc) (KCoro, PCs, false) I) as (Ww & Nwc & _ & _);
+        [cbn [v_tv]; rewrite upd_same; exact Hh|reflexivity|exact Hn|reflexivity|].
+      cbn [v_tv] in Ww. rewrite upd_other in Ww by exact Nwc.
+      assert (Lw : w < length (tasks s)).
+      { apply task_lt. intro Z. unfold tvs, tvw in Ww. rewrite Z in Ww. cbn in Ww. discriminate. }
+      eexists. split; [|split; [reflexivity|split; assumption]].
+      unfold tvs, tvw in Ww. cbn [cls] in Ww. unfold tvw. cbn [t_flag t_pc tk tpc flag].
+      destruct (tk (gtask s w)), (tpc (gtask s w)); try discriminate; try reflexivity;
+        destruct (flag (gtask s w)); try discriminate; reflexivity. }
+    destruct Kw as (vw' & Hw & Evw & Nwc & Lw).
+    destruct (inv_handover _ c w (tvw yc) vw' I) as (_ & _ & _ & I2);
+      [cbn [v_tv]; rewrite upd_same; exact Hh|reflexivity|exact Hn|exact Hw|].
+    cbn [v_req v_q v_next v_dn v_err v_own v_gs v_gq v_al v_gl v_tv] in I2.
+    unfold handover. rewrite EQ.
+    cbv zeta.
+    set (s1 := s_mem s (requests s) (gnext s w) (set_nth (next s) w PNull) (dnext s)).
+    set (s2 := s_ghost s1 (Some w) (gstack s1) (tl (gqueue s1)) (alog s1) (glog s1 ++ [w])).
+    set (s3 := set_task s2 c (t_endround (gtask s2 c) false)).
+    assert (G3 : gtask s3 w = gtask s w) by (unfold s3; rewrite gtask_set_task_other by exact Nwc; reflexivity).
+    assert (G3c : gtask s3 c = yc) by (unfold s3; rewrite gtask_set_task by exact Lc; rewrite Nat.eqb_refl; reflexivity).
+    assert (L3 : length (tasks s3) = length (tasks s)) by (unfold s3; rewrite set_task_len; reflexivity).
+    assert (T3 : forall x, tvs s3 x = upd (tvs s) c (tvw yc) x).
+    { intros x. unfold s3. rewrite tvs_set_task by exact Lc. reflexivity. }
+    rewrite G3.
+    assert (Base : forall y, tvw y = vw' -> SInv (set_task s3 w y)).
+    { intros y Ey. split.
+      - rewrite set_task_len, L3. cbn. rewrite set_nth_len. exact L.
+      - eapply inv_veq; [|exact I2]. veq_fields. intros x. rewrite tvs_set_task by (rewrite L3; exact Lw).
+        destruct (Nat.eq_dec x w) as [->|Nx]; [rewrite !upd_same; symmetry; exact Ey|].
+        rewrite (upd_other _ w vw' x Nx), (upd_other _ w (tvw y) x Nx), T3, upd_upd_same. reflexivity. }
+    destruct (tk (gtask s w)) eqn:Kw.
+    + (* coroutine waiter *)
+      assert (B4 : SInv (set_pc s3 w PCs)).
+      { unfold set_pc. apply Base. rewrite G3. exact (eq_sym Evw). }
+      destruct (tk (gtask (set_pc s3 w PCs) c)); [destruct (crel (gtask (set_pc s3 w PCs) c))|].
+      * eapply sinv_same; [apply same_set_tq|exact B4].
+      * eapply sinv_same; [apply same_set_tq|exact B4].
+      * eapply sinv_same; [|exact B4].
+        eapply same_trans; [eapply same_trans; [apply same_set_tq|apply same_set_run]|apply same_enter].
+      * eapply sinv_same; [|exact B4]. eapply same_trans; [apply same_set_run|apply same_enter].
+    + apply Base. exact (eq_sym Evw).
+Qed.
+
+Lemma enabled_flag s t c : enabled s t = true -> run (gthr s t) = TRun c -> tpc (gtask s c) = PFlag ->
+  flag (gtask s c) = true.
+Proof.
+  unfold enabled, gthr. intros E R P. apply andb_true_iff in E. destruct E as [_ E].
+  destruct (nth_error (thrs s) t) as [th|] eqn:N; [|discriminate].
+  rewrite (nth_error_nth _ _ dflt_thr N) in R. destruct th as [r q]. cbn [run] in R. subst r.
+  rewrite P in E. exact E.
+Qed.
+
+Lemma build_queue_eq s stop nx q :
+  bq_walk (length (tasks s) + 2) (next s) (dnext s) (requests s) stop (queue s) = (nx, dnext s, q) ->
+  build_queue s stop =
+  s_ghost (s_mem s PDoor q nx (dnext s)) (owner s) [] (rev (gstack s) ++ gqueue s) (alog s) (glog s).
+Proof. intros E. unfold build_queue. rewrite E. reflexivity. Qed.
+
+Ltac cls_case SI P :=
+  apply sinv_set_task_cls;
+  [exact SI | apply task_lt; rewrite P; discriminate
+  | unfold tvs, tvw; cbn [tk tpc flag t_pc t_begin t_endround t_leave t_flag]; rewrite P; reflexivity].
+
+(* ---------- every step of every thread preserves the invariant ---------- *)
+Lemma step_inv s t : SInv s -> enabled s t = true -> SInv (fst (fst (tstep s t))).
+Proof.
+  intros SI En. unfold tstep.
+  destruct (run (gthr s t)) as [|c|c] eqn:R; cbn [fst].
+  - exact SI.
+  - pose proof SI as [L I].
+    destruct (tpc (gtask s c)) eqn:P; cbn [fst].
+    + (* PStep *)
+      destruct (prog (gtask s c)) as [|[a r] p]; cbn [fst].
+      * assert (B : SInv (set_pc s c PDone)) by (unfold set_pc; cls_case SI P).
+        destruct (tk (gtask s c)); (eapply sinv_same; [|exact B]); [apply same_yield|apply same_set_run].
+      * cls_case SI P.
+    + (* PTry *)
+      assert (Lc : c < length (tasks s)) by (apply task_lt; rewrite P; discriminate).
+      assert (Nc : cls (tvs s c) = CNeutral) by (unfold tvs, tvw; rewrite P; reflexivity).
+      destruct (requests s) eqn:Rq; cbn [fst].
+      * eapply sinv_same; [apply same_enter|]. split.
+        -- unfold set_pc. rewrite set_task_len. exact L.
+        -- refine (inv_veq _ _ _ (inv_try (vw s) c (tvw (t_pc (gtask s c) PCs)) I Rq Nc _ _)).
+           ++ veq_fields. intros x. unfold set_pc. rewrite tvs_set_task by exact Lc. reflexivity.
+           ++ cbn [vw v_next]. lia.
+           ++ reflexivity.
+      * destruct (cacq (gtask s c)); [unfold set_pc|]; cls_case SI P.
+      * destruct (cacq (gtask s c)); [unfold set_pc|]; cls_case SI P.
+    + (* PSub *)
+      assert (Lc : c < length (tasks s)) by (apply task_lt; rewrite P; discriminate).
+      assert (Nc : cls (tvs s c) = CNeutral) by (unfold tvs, tvw; rewrite P; reflexivity).
+      assert (Sub : forall y, cls (tvw y) = CWait -> requests s <> PNull ->
+                SInv (set_task (s_ghost (s_mem s (PNode c) (queue s) (set_nth (next s) c (requests s)) (dnext s))
+                                        (owner s) (c :: gstack s) (gqueue s) (alog s ++ [c]) (glog s)) c y)).
+      { intros y Cy Rq. split.
+        - rewrite set_task_len. cbn. rewrite set_nth_len. exact L.
+        - refine (inv_veq _ _ _ (inv_subw (vw s) c (tvw y) I Rq Nc _ Cy)).
+          + veq_fields. intros x. rewrite tvs_set_task by exact Lc. reflexivity.
+          + cbn [vw v_next]. lia. }
+      cbv zeta.
+      destruct (requests s) eqn:Rq; cbn [fst].
+      * split.
+        -- unfold set_pc. rewrite set_task_len. cbn. rewrite set_nth_len. exact L.
+        -- refine (inv_veq _ _ _ (inv_sub0 (vw s) c (tvw (t_pc (gtask s c) PPub0)) I Rq Nc _ _)).
+           ++ veq_fields. intros x. unfold set_pc. rewrite tvs_set_task by exact Lc. reflexivity.
+           ++ cbn [vw v_next]. lia.
+           ++ reflexivity.
+      * destruct (tk (gtask s c)) eqn:K; cbn [fst].
+        -- eapply sinv_same; [apply same_set_run|]. unfold set_pc. apply Sub; [|discriminate].
+           change (cls (tvw (t_pc (gtask s c) PParked)) = CWait).
+           unfold tvw, t_pc. cbn [tk tpc flag cls]. rewrite K. reflexivity.
+        -- apply Sub; [|discriminate]. unfold tvw, t_pc, t_flag. cbn [tk tpc flag cls]. rewrite K. reflexivity.
+      * destruct (tk (gtask s c)) eqn:K; cbn [fst].
+        -- eapply sinv_same; [apply same_set_run|]. unfold set_pc. apply Sub; [|discriminate].
+           change (cls (tvw (t_pc (gtask s c) PParked)) = CWait).
+           unfold tvw, t_pc. cbn [tk tpc flag cls]. rewrite K. reflexivity.
+        -- apply Sub; [|discriminate]. unfold tvw, t_pc, t_flag. cbn [tk tpc flag cls]. rewrite K. reflexivity.
+    + unfold set_pc. cls_case SI P.
+    + unfold set_pc. cls_case SI P.
+    + (* PBqS *)
+      assert (Lc : c < length (tasks s)) by (apply task_lt; rewrite P; discriminate).
+      destruct (inv_bq (vw s) c (PNode c) (length (tasks s) + 2) (tvw (t_pc (gtask s c) PCs)) I) as (nx & q' & E & I2 & _ & Lnx).
+      { left. split; [|reflexivity]. cbn [vw v_tv]. unfold tvs, tvw. rewrite P. reflexivity. }
+      { reflexivity. }
+      { cbn [vw v_next]. lia. }
+      cbn [vw v_req v_q v_next v_dn v_err v_own v_gs v_gq v_al v_gl v_tv] in E, I2.
+      rewrite (build_queue_eq s (PNode c) nx q' E).
+      eapply sinv_same; [apply same_enter|]. split.
+      * unfold set_pc. rewrite set_task_len. cbn. cbn [vw v_next] in Lnx. congruence.
+      * eapply inv_veq; [|exact I2]. veq_fields. intros x. unfold set_pc. rewrite tvs_set_task by exact Lc. reflexivity.
+    + exact SI.
+    + (* PFlag *)
+      pose proof (enabled_flag s t c En R P) as F.
+      eapply sinv_same; [apply same_enter|].
+      apply sinv_set_task_cls; [exact SI|apply task_lt; rewrite P; discriminate|].
+      pose proof (i_bad _ I c) as B. cbn [vw v_tv] in B. unfold tvs, tvw in *. unfold t_pc, t_flag.
+      cbn [tk tpc flag]. rewrite P, F in *. cbn [cls] in *.
+      destruct (tk (gtask s c)); [exfalso; apply B; reflexivity|reflexivity].
+    + cls_case SI P.
+    + (* PUnlock *)
+      assert (Lc : c < length (tasks s)) by (apply task_lt; rewrite P; discriminate).
+      assert (Hc : cls (v_tv (vw s) c) = CHold) by (cbn [vw v_tv]; unfold tvs, tvw; rewrite P; reflexivity).
+      assert (Bqu : queue s = PNull -> requests s <> PDoor -> SInv (set_pc s c PBqU)).
+      { intros Q Rq. split.
+        - unfold set_pc. rewrite set_task_len. exact L.
+        - refine (inv_veq _ _ _ (inv_unlock_bqu (vw s) c (tvw (t_pc (gtask s c) PBqU)) I Hc Q Rq _)).
+          + veq_fields. intros x. unfold set_pc. rewrite tvs_set_task by exact Lc. reflexivity.
+          + reflexivity. }
+      assert (Hand : queue s <> PNull -> SInv (handover s t c)).
+      { intros Q. apply handover_inv with (vh := tvs s c); try assumption.
+        eapply inv_veq; [|exact I]. veq_fields. intros x. symmetry. apply upd_id. }
+      destruct (queue s) eqn:Q; cbn [fst].
+      * destruct (requests s) eqn:Rq; cbn [fst].
+        -- apply Bqu; [reflexivity|discriminate].
+        -- split.
+           ++ rewrite set_task_len. exact L.
+           ++ refine (inv_veq _ _ _ (inv_unlock_free (vw s) c (tvw (t_endround (gtask s c) false)) I Hc Q Rq _)).
+              ** veq_fields; try assumption; try (symmetry; assumption). intros x. rewrite tvs_set_task by exact Lc. reflexivity.
+              ** reflexivity.
+        -- apply Bqu; [reflexivity|discriminate].
+      * apply Hand. discriminate.
+      * apply Hand. discriminate.
+    + (* PBqU *)
+      assert (Lc : c < length (tasks s)) by (apply task_lt; rewrite P; discriminate).
+      assert (Cc : cls (v_tv (vw s) c) = CBqU) by (cbn [vw v_tv]; unfold tvs, tvw; rewrite P; reflexivity).
+      destruct (inv_bq (vw s) c PDoor (length (tasks s) + 2) (tk (gtask s c), PUnlock, flag (gtask s c)) I)
+        as (nx & q' & E & I2 & NE & Lnx).
+      { right. split; [exact Cc|reflexivity]. }
+      { reflexivity. }
+      { cbn [vw v_next]. lia. }
+      cbn [vw v_req v_q v_next v_dn v_err v_own v_gs v_gq v_al v_gl v_tv] in E, I2, NE, Lnx.
+      rewrite (build_queue_eq s PDoor nx q' E).
+      apply handover_inv with (vh := (tk (gtask s c), PUnlock, flag (gtask s c))).
+      * cbn. congruence.
+      * exact Lc.
+      * exact I2.
+      * reflexivity.
+      * cbn. destruct NE as (w & ->); [|discriminate]. apply (i_bqu _ I c Cc).
+    + exact SI.
+  - eapply sinv_same; [apply same_yield|exact SI].
 Qed.
